@@ -15,7 +15,7 @@ from ..tools.docstrings import fill_in_docstring
 from ..tools.misc import get_common_dtype
 from ..tools.plotting import PlotReference, plot_on_figure
 from .datafield_base import DataFieldBase
-from .scalar import ScalarField
+from .scalar import ScalarField, _evaluate_expression_on_grid
 
 if TYPE_CHECKING:
     from collections.abc import Callable, Sequence
@@ -142,9 +142,6 @@ class VectorField(DataFieldBase):
                 consts["cartesian"] = np.moveaxis(coords_cart, -1, 0)
             assert "cartesian" in consts
 
-        # obtain the coordinates of the grid points
-        points = [grid.cell_coords[..., i] for i in range(grid.num_axes)]
-
         # evaluate all vector components at all points
         data = []
         for expression in expressions:
@@ -156,7 +153,9 @@ class VectorField(DataFieldBase):
                 repl=grid.c._axes_alt_repl,
                 allow_indexed=True,
             )
-            values = np.broadcast_to(expr(*points), grid.shape)
+            values = np.broadcast_to(
+                _evaluate_expression_on_grid(expr, grid), grid.shape
+            )
             data.append(values)
 
         # create vector field from the data
